@@ -129,7 +129,7 @@ def main():
     c = vf.Check("C17")
     xasan, tsan = c.build("h_render.xasan", "h_render.tsan")
     # (P) the design and its impure variants
-    for cfg, inv in (("QRender_bad_static-scratch", "Sound"), ("QRender_bad_tag-patched", "PureShared"), ("QRender_bad_shared-context", "Sound")):
+    for cfg, inv in (("QRender_bad_static-scratch", "Sound"), ("QRender_bad_tag-patched", "PureShared"), ("QRender_bad_shared-context", "Sound"), ("QRender_bad_lazy-parse", "PureShared")):
         r = c.tlc("QRender", cfg, timeout=600, workers=4)
         if inv not in r.violated:
             raise vf.MachineryError("%s: the impure design is not rejected by %s" % (cfg, inv))
